@@ -337,7 +337,7 @@ def check(mod, tier, seed):
                                'occurrences': len(by_sig[sig])})
         exit_code = 1
 
-    for i, sig_no in died[:3]:
+    for i, sig_no in died[:8]:
         # a run during which the interpreter died: reproduce it alone in a fresh interpreter
         plan = mod.gen_plan(seed, tier, i)
         sig = 'interpreter-died|signal-%d' % sig_no
